@@ -6,7 +6,7 @@ make are steered only through the standard library: os.confstr, a stand-in `ctyp
 pointing at a generated file, a synthetic `_manylinux` module in sys.modules, subprocess.run, platform.mac_ver/system/ios_ver,
 sys.implementation, sysconfig.get_platform.  Memoised probes are reset by calling cache_clear() on whatever module attributes
 expose it.  No private name of `packaging` is assigned to."""
-import contextlib, io, os, platform, re, subprocess, sys, sysconfig, tempfile, types, warnings
+import atexit, contextlib, io, os, platform, re, shutil, subprocess, sys, sysconfig, tempfile, types, warnings
 from packaging import tags, _manylinux, _musllinux, _elffile
 from packaging._elffile import ELFFile, ELFInvalid
 from tags_impl import patched, plist, _MISSING
@@ -14,6 +14,7 @@ from tags_impl import patched, plist, _MISSING
 warnings.simplefilter("ignore")
 _TMP = tempfile.mkdtemp(prefix="verif_c16_")
 _EXE = os.path.join(_TMP, "python")
+atexit.register(shutil.rmtree, _TMP, True)
 
 
 def clear_caches():
